@@ -817,6 +817,12 @@ func (g *Gen) instrWrites(fr *Frame, in ssa.Instruction, depth int) (ws []string
 			ws = append(ws, g.cellHeap(el))
 		}
 		return ws, false
+	case *ssa.Next:
+		if fr != nil {
+			if it, ok := fr.vals[x.Iter]; ok && it.Loc != nil {
+				return []string{it.Loc.Heap}, false
+			}
+		}
 	case *ssa.MakeSlice:
 		return []string{"Alloc", g.elemsHeap(x.Type().Underlying().(*types.Slice).Elem())}, false
 	case *ssa.MakeMap:
